@@ -261,6 +261,7 @@ struct Problem
   bool quick      = true;    // member of the quick-tier menu
   int nres        = 1;       // number of residuals
   double log2_res_scale = 0; // see TPBase
+  double conv_max_tol   = 1; // see TPBase
   std::vector<char> basin;   // per start: inside the basin (premise of the convergence clause)
   std::vector<char> hist;    // per start: member of the history (prefix-solve) menu
   bool deep       = false;   // representative used for the judged menu of depth-2 history states
@@ -277,6 +278,7 @@ void add_problem(std::shared_ptr<const TP> p, bool quick = true)
   Problem P;
   P.name     = p->name;
   P.log2_res_scale = p->log2_res_scale;
+  P.conv_max_tol   = p->conv_max_tol;
   P.nstarts  = p->nstarts();
   P.modes    = p->modes();
   P.wellcond = p->wellcond();
@@ -296,6 +298,7 @@ struct TPBase
 {
   std::string name;
   double log2_res_scale = 0;  // log2 of a uniform factor applied to the residual function (0: none)
+  double conv_max_tol   = 1;  // the convergence clause is judged when max(ptol, ftol) <= this (1: always)
   unsigned modes() const { return 0xF; }
 };
 
